@@ -10,8 +10,6 @@ package c16
 
 import (
 	"bytes"
-	"crypto/ecdsa"
-	"crypto/rsa"
 	"fmt"
 	"strings"
 	"testing"
@@ -525,6 +523,3 @@ func runJWSTamper(m *mon.M, col *collector, rounds int) {
 		}
 	})
 }
-
-var _ = rsa.PublicKey{}
-var _ = ecdsa.PublicKey{}
